@@ -1016,6 +1016,7 @@ def _lockstep_op(run, ms, op, run_out=None):
     if k not in ("flush", "commit") and run.nflush > nfl:
         # an autoflush happened inside the operation (a lazy load preceded the mutation): "as if flush had been
         # called first"
+        ms0 = ms
         exp0 = ms.expect_flush(af=True)
         if exp0["must_error"]:
             problems.append(("flush-accepted-invalid", "autoflush in %s succeeded although the final state violates %s" % (op[0], exp0["why"]), ""))
@@ -1034,6 +1035,9 @@ def _lockstep_op(run, ms, op, run_out=None):
         if ms.dead or exp0["open"]:
             return None, None, problems
         if got is not None and ms.rows_as_lists() != got:
+            if _f13_match(w, ms0, got, ms.rows_as_lists()):
+                problems.append(("known:f13", KNOWN_QUIRKS["f13"], "autoflush in " + _fmt_op(op)))
+                return None, None, problems
             problems.append(("rows", "database differs from the object graph after the autoflush in %s" % op[0], diff_rows(got, ms.rows_as_lists())))
             return None, None, problems
     if k == "expunge" and not run.session.autoflush and out[0] == "ok":
@@ -1059,6 +1063,8 @@ def _lockstep_op(run, ms, op, run_out=None):
                 return None, None, problems
             if exp.get("known_any"):
                 problems.append(("known:" + exp["known_any"], KNOWN_QUIRKS[exp["known_any"]], "%s raised %r" % (k, e)))
+            elif not exp["error"] and _f13_match(w, ms, {}, {}, only_exists=True):
+                problems.append(("known:f13", KNOWN_QUIRKS["f13"], "%s raised %r" % (k, e)))
             elif not exp["error"] and exp.get("known_err"):
                 problems.append(("known:" + exp["known_err"], KNOWN_QUIRKS[exp["known_err"]], "%s raised %r" % (k, e)))
             elif not exp["error"]:
@@ -1085,6 +1091,9 @@ def _lockstep_op(run, ms, op, run_out=None):
                     break
         if got != want and exp.get("known_any"):
             problems.append(("known:" + exp["known_any"], KNOWN_QUIRKS[exp["known_any"]], diff_rows(got, want)))
+            return None, None, problems
+        if got != want and _f13_match(w, ms, got, want):
+            problems.append(("known:f13", KNOWN_QUIRKS["f13"], diff_rows(got, want)))
             return None, None, problems
         if got != want and ("f5" in ms.taint or _f5_match(w, got, want)):
             problems.append(("known:f5", KNOWN_QUIRKS["f5"], diff_rows(got, want)))
@@ -1137,7 +1146,7 @@ def _lockstep_op(run, ms, op, run_out=None):
             exp2 = ms.expect_flush(af=True)
             if exp2["error"]:
                 return None, None, problems
-            kq = exp2.get("known_any") or exp2.get("known_err")
+            kq = exp2.get("known_any") or exp2.get("known_err") or ("f13" if _f13_match(w, ms, {}, {}, only_exists=True) else None)
             if kq:
                 problems.append(("known:" + kq, KNOWN_QUIRKS[kq], "autoflush in %s raised %r" % (_fmt_op(op), e)))
                 return None, None, problems
@@ -1165,6 +1174,41 @@ def _lockstep_op(run, ms, op, run_out=None):
         problems.append(("life", "object states after %s" % op[0], p))
         return None, None, problems
     return post, (run.canon(), post.canon()), problems
+
+
+def _f13_match(w, ms, got, want, only_exists=False):
+    """row switch: the differing rows are exactly rows whose key was given up by a deleted object and taken by a
+    pending object of the same class in this flush, and they differ only in columns the model has as NULL"""
+    spec = w.spec
+    switched = {}
+    for n, o in ms.objs.items():
+        if o.life != "P":
+            continue
+        for d, od in ms.objs.items():
+            if od.life == "S" and od.cls == o.cls and od.dbpk == ms.pk(n) and od.dbpk is not None:
+                for t in spec.cls[o.cls].tabs:
+                    switched.setdefault(t.name, set()).add(od.dbpk)
+    if not switched:
+        return False
+    if only_exists:
+        return True
+    cols = {t: cs for t, cs, q in w.readers}
+    pkcol = {t.name: t.pk for c in spec.cls.values() for t in c.tabs}
+    for t in set(got) | set(want):
+        if got.get(t) == want.get(t):
+            continue
+        if t not in switched or t not in pkcol:
+            return False
+        i = cols[t].index(pkcol[t])
+        g = {r[i]: r for r in got[t]}
+        wnt = {r[i]: r for r in want[t]}
+        if set(g) != set(wnt):
+            return False
+        for k in g:
+            if g[k] != wnt[k]:
+                if k not in switched[t] or any(a != b and b is not None for a, b in zip(g[k], wnt[k])):
+                    return False
+    return True
 
 
 def _sa_frame(e):
@@ -1203,6 +1247,8 @@ def _f5_match(w, got, want):
 
 
 KNOWN_QUIRKS = {
+    "f11": "self-referential relationship: a flush whose old and new parent links together form a loop raises CircularDependencyError (owned by C31)",
+    "f13": "row switch: when an object is deleted and a new object with the same primary key is added in one flush, the row is UPDATEd with only the attributes set on the new object; every other column (e.g. the foreign key) keeps the deleted object's value",
     "f5": "one-to-one (uselist=False): when a child takes over a parent through child.parent = p, the displaced child's own many-to-one attribute is not cleared; if the parent's scalar has no net change in that flush the displaced row keeps its foreign key (two rows for one parent)",
     "f6": "delete-orphan: an orphan found only by the session-level check is deleted without its delete cascade (children keep referring to it)",
     "f7": "joined inheritance: a pending object that takes over the primary key of a deleted object of another subclass (row switch) is written as an UPDATE of the old row",
